@@ -309,9 +309,12 @@ impl Default for Knobs {
 }
 
 pub const PATTERN_POOL: &[char] = &[
-    'a', 'b', 'c', '0', '1', '\u{e9}', '\u{20ac}', '\u{1F600}', '\n', ' ', '"', '-', 'x',
+    'a', 'b', 'c', '0', '1', '\u{e9}', '\u{20ac}', '\u{1F600}', '\n', ' ', '"', '-', 'x', 'a', 'b', '\n',
+    // characters whose low byte is 0x0A / 0x0D without being line breaks, other Unicode line
+    // separators (which must NOT count as line breaks), a byte order mark
+    '\u{10a}', '\u{4e0a}', '\u{2028}', '\u{10d}',
 ];
-pub const UNMATCHED_POOL: &[char] = &['#', '~', '\u{df}', '\u{2192}', '\r', '\t', '%'];
+pub const UNMATCHED_POOL: &[char] = &['#', '~', '\u{df}', '\u{2192}', '\r', '\t', '%', '#', '~', '\u{200a}', '\u{85}', '\u{feff}', '\u{30a}'];
 
 #[derive(Clone, Debug)]
 pub struct Alphabet {
@@ -487,8 +490,16 @@ pub fn gen_token_type(rng: &mut Rng) -> usize {
         0..=5 => rng.below(6),
         6..=13 => rng.below(60),
         14..=16 => 60 + rng.below(200),
-        _ => *rng.pick(&[63, 64, 65, 127, 128, 129, 191, 192, 255, 256, 257, 1023, 1024, 4095, 4096, 65535, 65536, 70000]),
+        17..=18 => *rng.pick(&[63, 64, 65, 127, 128, 129, 191, 192, 255, 256, 257, 1023, 1024, 4095, 4096, 65535, 65536, 70000]),
+        // scnr's token types are 32 bit wide: larger numbers are reported modulo 2^32 (the models
+        // compare modulo 2^32 as well, and the generators keep types distinct modulo 2^32)
+        _ => *rng.pick(&[u32::MAX as usize, 1usize << 32, (1usize << 32) + 5, usize::MAX, 70001, 1 << 20]),
     }
+}
+
+/// equality of token types as scnr sees them (32 bit)
+pub fn same_type(a: usize, b: usize) -> bool {
+    a as u32 == b as u32
 }
 
 pub struct GenConfig {
@@ -515,7 +526,7 @@ pub fn gen_config(rng: &mut Rng, al: &Alphabet, k: &Knobs) -> GenConfig {
     let mut pool: Vec<usize> = Vec::new();
     while pool.len() < pool_n {
         let t = gen_token_type(rng);
-        if !pool.contains(&t) {
+        if !pool.iter().any(|x| same_type(*x, t)) {
             pool.push(t);
         }
     }
@@ -535,7 +546,7 @@ pub fn gen_config(rng: &mut Rng, al: &Alphabet, k: &Knobs) -> GenConfig {
         let mut patterns = Vec::new();
         let mut mode_rx = Vec::new();
         for _ in 0..n_pat {
-            let cands: Vec<usize> = avail.iter().copied().filter(|t| !types.contains(t)).collect();
+            let cands: Vec<usize> = avail.iter().copied().filter(|t| !types.iter().any(|x| same_type(*x, *t))).collect();
             if cands.is_empty() {
                 break;
             }
@@ -567,11 +578,12 @@ pub fn gen_config(rng: &mut Rng, al: &Alphabet, k: &Knobs) -> GenConfig {
                 } else {
                     gen_token_type(rng)
                 };
-                if !transitions.iter().any(|(x, _)| *x == t) {
+                if !transitions.iter().any(|(x, _)| same_type(*x, t)) {
                     transitions.push((t, rng.below(n_modes)));
                 }
             }
-            transitions.sort();
+            // sorted the way scnr sees the token types (32 bit)
+            transitions.sort_by_key(|x| (x.0 as u32, x.1));
         }
         let name = if k.fancy_names && rng.chance(1, 6) {
             format!("{}{}", rng.pick(FANCY_NAMES), m)
@@ -620,14 +632,21 @@ pub fn make_simple(cfg: &Config) -> Config {
 pub fn gen_input(rng: &mut Rng, al: &Alphabet, gc: &[&GenConfig], len: (usize, usize)) -> String {
     let target = match rng.below(12) {
         0 => 0,
-        1 => rng.range(len.0, 3.min(len.1)),
+        1 => rng.range(len.0, 3.max(len.0).min(len.1)),
         _ => rng.range(len.0, len.1),
     };
     let mut s = String::new();
-    let shape = rng.below(4);
+    let shape = rng.below(5);
+    let long = len.1 > 60;
     let mut n = 0;
     while n < target {
         match shape {
+            // only characters of a few kinds (often: nothing any pattern matches)
+            4 => {
+                let few: Vec<char> = al.all.iter().rev().take(2).copied().collect();
+                s.push(*rng.pick(&few));
+                n += 1;
+            }
             // uniform
             0 => {
                 s.push(*rng.pick(&al.all));
@@ -636,7 +655,7 @@ pub fn gen_input(rng: &mut Rng, al: &Alphabet, gc: &[&GenConfig], len: (usize, u
             // runs
             1 => {
                 let c = *rng.pick(&al.all);
-                let r = rng.range(1, 4);
+                let r = if long && rng.chance(1, 4) { rng.range(20, 300) } else { rng.range(1, 4) };
                 for _ in 0..r {
                     s.push(c);
                 }
@@ -729,7 +748,7 @@ pub fn near_variant(rng: &mut Rng, base: &Config, kind: &str, al: &Alphabet) -> 
             let pi = rng.below(np);
             let used: Vec<usize> = c[mi].patterns.iter().map(|p| p.token_type).collect();
             let mut t = gen_token_type(rng);
-            while used.contains(&t) {
+            while used.iter().any(|x| same_type(*x, t)) {
                 t = gen_token_type(rng);
             }
             c[mi].patterns[pi].token_type = t;
@@ -787,14 +806,14 @@ pub fn near_variant(rng: &mut Rng, base: &Config, kind: &str, al: &Alphabet) -> 
         }
         "tr_add" => {
             let used: Vec<usize> = c[mi].transitions.iter().map(|t| t.0).collect();
-            let types: Vec<usize> = c[mi].patterns.iter().map(|p| p.token_type).filter(|t| !used.contains(t)).collect();
+            let types: Vec<usize> = c[mi].patterns.iter().map(|p| p.token_type).filter(|t| !used.iter().any(|x| same_type(*x, *t))).collect();
             if types.is_empty() {
                 return None;
             }
             let t = *rng.pick(&types);
             let target = rng.below(c.len());
             c[mi].transitions.push((t, target));
-            c[mi].transitions.sort();
+            c[mi].transitions.sort_by_key(|x| (x.0 as u32, x.1));
         }
         "tr_retarget" => {
             if c[mi].transitions.is_empty() || c.len() < 2 {
@@ -912,7 +931,7 @@ pub fn failing_variant(rng: &mut Rng, base: &Config, kind: &str) -> Option<Confi
     }
     let used: Vec<usize> = c[mi].patterns.iter().map(|p| p.token_type).collect();
     let mut t = rng.below(70);
-    while used.contains(&t) {
+    while used.iter().any(|x| same_type(*x, t)) {
         t = rng.below(70);
     }
     let p = PatternSpec { pattern: bad, token_type: t, lookahead: None };
